@@ -7,6 +7,11 @@ Domain : generated helper flows (vf/co2.py) under a fixed `main` that only start
              pattern (`match EvC(v=op(number))`, plain or inside a list / dict pattern) whose error only exists together with an
              incoming value of another type: there the payload of the canary event (string, list, dict, None, the other numeric
              type, a well-typed number that does not satisfy the comparison, parameter missing) is part of the case;
+             or a match on a member event of a REFERENCE the helper created itself (`start <action> as $argref` / `start argchild as
+             $argref`, then `match $argref.Finished|Started(<param>=<erroneous expression>)`, directly after the action statement, after a
+             match statement or after a send statement; alone / `as $ref` / in an or- / and-group): the statement can be registered when
+             the head arrives, its arguments are evaluated when an event of that name is matched - the history feeds the referenced
+             action's own event (or the event that lets the referenced child flow finish) while the head is parked there;
          (b) activated flows that finish / return / abort / raise before their first waiting statement;
          (c) two canary flows (same interaction loop as main / a loop of their own) and a ColangError watcher.
          Histories mix alphabet events, action life-cycle events, the canary event EvC and `toward` items that feed what the
@@ -17,6 +22,10 @@ Oracle : termination = deterministic step budget (wrappers on the interpreter's 
          watcher flow, and the C09 invariants still hold. For a valid comparison pattern an error is only demanded when the
          delivered value forces a number to be compared with a str / list / dict; for every other payload (None, int vs
          float, well-typed, missing) only the unconditional parts (no escape, canaries, termination, invariants) are asserted.
+         For a reference-member match with an erroneous argument nothing beyond the unconditional parts is demanded when the head
+         arrives (an implementation may fail the flow there already); when the referenced object's own event comes in while the head
+         is still parked on the statement, that very call must report a ColangError and the flow instance must have failed. A third
+         canary (own loop) waits for EVERY event of that name and must react exactly once to each of them.
 """
 import asyncio
 import math
@@ -34,21 +43,29 @@ RULE = (
     "helpers h0..h3 from the co2 grammar; main = activate canary, canary2 (@loop), watcher, 0-2 immediate flows (finish|return|abort|raise "
     "before any wait), then start/activate every parameterless helper, then `match Never()`; fault = (helper, top-level position, kind) with kind "
     "in {add-str, subscript, undefined-attr, bad-regex-match (alone / with a child flow waiting for the same event / inside an or- or and-group), bad-compare-match, surplus-args, priority-range, action-arg-type, "
+    "undefined-ref-match | undefined-ref-send | unknown-member-action-match | unknown-member-action-send | not-a-reference-match (a reference whose event name cannot be evaluated: the error arises when the head arrives), "
     "compare-type-match (a VALID comparison pattern op(ref), op in less_than|equal_less_than|greater_than|equal_greater_than|not_equal_to, ref int or float, plain / inside a list pattern / inside a dict pattern; "
-    "statement alone / `as $ref` / with a child flow waiting for the same event / inside an or- or and-group - the error only arises when an EvC value of another type is matched against it), none}; for each generated "
+    "statement alone / `as $ref` / with a child flow waiting for the same event / inside an or- or and-group - the error only arises when an EvC value of another type is matched against it), "
+    "ref-arg-match (a match on a member event of a reference created by the helper itself whose ARGUMENT is erroneous: `start X as $argref` + `match $argref.M(p=BAD)`, X in UtteranceBotAction|GestureBotAction|TimerBotAction|child flow argchild, "
+    "M in Finished|Started (flows: Finished), BAD in {$cfg[\"missing\"] with $cfg undefined, {\"a\": 1}[\"nokey\"], $undefinedvar.attr, 1 / 0, 1 + \"a\"}; the match directly after the start statement / `as $ref` / after a further `match Ev0()` / after a send / "
+    "inside an or- or and-group - the head can park, the error is due when the referenced object's own event is matched), none}; for each generated "
     "program the quick tier draws the position, `enumerate_cases` walks every position x kind for a fixed family of programs (for compare-type-match: position x statement shape x nesting with a history that first "
-    "delivers well-typed values and then wrong-typed ones, and operator x reference x nesting x payload class at one position); history of <=18 items incl. EvC - either free, or steered (free prefix, then 1-6 items `toward` = an event that a waiting statement of the helper carrying the fault, or of a flow it started, "
-    "is waiting for at that moment: alphabet event with the parameters the statement names, or the end of an action it awaits; then EvC items mixed with further steering; label history-steered-towards-fault) -, each EvC carrying a drawn payload "
+    "delivers well-typed values and then wrong-typed ones, and operator x reference x nesting x payload class at one position; for ref-arg-match: position x statement shape with object / member / expression rotating, and object x member x expression at one position, "
+    "with histories that walk the helper to the position and then feed the referenced action's event - for a flow reference without any EvC before the child's event, because every finishing flow makes the statement evaluate); history of <=18 items incl. EvC - either free, or steered (free prefix, then 1-6 items `toward` = an event that a waiting statement of the helper carrying the fault, or of a flow it started, "
+    "is waiting for at that moment: alphabet event with the parameters the statement names, the end of an action it awaits, or the Started/Finished event of the action an erroneous reference-member match refers to; three of four ref-arg-match cases are steered; then EvC items mixed with further steering; label history-steered-towards-fault) -, each EvC carrying a drawn payload "
     "(str | list | dict | None | number of the other numeric type | well-typed number not satisfying the comparison | parameter missing; optionally wrapped like the pattern's nesting; bare item = \"x1\"). "
     "Non-trivial = the fault position was reached (marker `Reached` seen, or a head was parked on the faulty match when an EvC arrived whose evaluation has to fail: any EvC for an invalid pattern, "
-    "an EvC that makes a number meet a str/list/dict for a valid comparison pattern) or an immediate activated flow of kind abort/raise is present; distinct by case. Labels cmp-op-*, cmp-ref-*, cmp-nest-*, "
-    "cmp-parked-got-<payload class> show what was delivered to a parked comparison pattern (…-not-compared: wrong type but not where the pattern compares; wrong-type-after-well-typed: the failing value came after tolerated ones)."
+    "an EvC that makes a number meet a str/list/dict for a valid comparison pattern; for ref-arg-match: the referenced action's own Started/Finished event, or Ev90 that lets the referenced child flow finish, while the head is parked) or an immediate activated flow of kind abort/raise is present; distinct by case. Labels cmp-op-*, cmp-ref-*, cmp-nest-*, "
+    "cmp-parked-got-<payload class> show what was delivered to a parked comparison pattern (…-not-compared: wrong type but not where the pattern compares; wrong-type-after-well-typed: the failing value came after tolerated ones). "
+    "Labels refarg-obj-*, refarg-member-*, refarg-bad-<i> and refarg-own-event-delivered-while-parked | refarg-parked-only | refarg-never-parked show how far a ref-arg-match case got."
 )
 ASSUMPTIONS = [
     "step budget = max(2000, 200 x source lines) interpreter steps (internal events processed + slides) per fed event; the order of magnitude of the largest per-event count is reported in the class histogram (steps<=N)",
     "main never awaits a helper, so a failing helper cannot legitimately take the canaries down with it",
     "no generated flow other than the injected faulty match listens to the canary event EvC, so a canary can never legitimately lose an action conflict",
     "numbers delivered to a valid comparison pattern never satisfy it (constructed from operator and reference; checked again in prop, otherwise skipped), so the helper never legitimately advances on EvC and competes with the canary of its loop",
+    "ref-arg-match: no generated flow other than the injected statement and the third canary refers to $argref, argchild or Ev90; the third canary sits in a loop of its own and only sends an event, so it can never legitimately miss an event of the name it waits for",
+    "ref-arg-match: a ColangError and the failure of the flow instance are demanded only in the call that delivers the referenced object's own event (action event with the uid of the referenced action / Ev90 while the referenced child flow waits for it) to a head that is parked on the statement; failing earlier - on arrival or on another event of the same name - is accepted",
     "a ColangError is demanded for a valid comparison pattern only when a number has to be compared with a str, list or dict; None, bool and int-vs-float are treated as unspecified (the implementation rejects them too, the check does not rely on it)",
 ]
 WALL = {"quick": 170, "thorough": 1500}
@@ -81,9 +98,32 @@ FAULTS = {
     "compare-type-match-with-child": "start evcchild\nmatch EvC(v=CMP)",
     "compare-type-match-or-group": 'match EvC(v=CMP) or EvC(v="other")',
     "compare-type-match-and-group": "match EvC(v=CMP) and EvC()",
+    # a match on a member event of a REFERENCE (action / flow started by the helper itself) whose ARGUMENT expression is erroneous:
+    # the event name can be evaluated when the head arrives (the head parks), the arguments are evaluated when an event of that
+    # name is matched - the error is due at the latest when the referenced object's own event comes in. The statement directly
+    # follows the action statement that created the reference, a match statement or a send statement
+    "ref-arg-match": "REFSTART as $argref\nmatch $argref.MEMBER(PARAM=BADARG)",
+    "ref-arg-match-as-ref": "REFSTART as $argref\nmatch $argref.MEMBER(PARAM=BADARG) as $argev",
+    "ref-arg-match-after-match": "REFSTART as $argref\nmatch Ev0()\nmatch $argref.MEMBER(PARAM=BADARG)",
+    "ref-arg-match-after-send": "REFSTART as $argref\nsend Probe(p=1)\nmatch $argref.MEMBER(PARAM=BADARG)",
+    "ref-arg-match-or-group": "REFSTART as $argref\nmatch $argref.MEMBER(PARAM=BADARG) or NeverOr()",
+    "ref-arg-match-and-group": "REFSTART as $argref\nmatch $argref.MEMBER(PARAM=BADARG) and NeverAnd()",
 }
 CMP_FAULTS = ("compare-type-match", "compare-type-match-as-ref", "compare-type-match-with-child", "compare-type-match-or-group", "compare-type-match-and-group")
-MATCH_FAULTS = ("bad-regex-match", "bad-compare-match", "bad-regex-match-with-child", "bad-regex-match-or-group", "bad-regex-match-and-group") + CMP_FAULTS
+REFARG_FAULTS = ("ref-arg-match", "ref-arg-match-as-ref", "ref-arg-match-after-match", "ref-arg-match-after-send", "ref-arg-match-or-group", "ref-arg-match-and-group")
+MATCH_FAULTS = ("bad-regex-match", "bad-compare-match", "bad-regex-match-with-child", "bad-regex-match-or-group", "bad-regex-match-and-group") + CMP_FAULTS + REFARG_FAULTS
+# reference-member matches with an erroneous argument: referenced object (statement that creates it, event type prefix, parameter
+# named in the match) x member event x erroneous argument expression. The child flow `argchild` finishes on the event Ev90.
+REF_OBJS = {
+    "utterance": ('start UtteranceBotAction(script="x")', "UtteranceBotAction", "final_script"),
+    "gesture": ('start GestureBotAction(gesture="q")', "GestureBotAction", "is_success"),
+    "timer": ('start TimerBotAction(timer_name="q", duration=1.0)', "TimerBotAction", "is_success"),
+    "flow": ("start argchild", None, "flow_id"),
+}
+REF_MEMBERS = ("Finished", "Started")
+BAD_ARGS = ['$cfg["missing"]', '{"a": 1}["nokey"]', "$undefinedvar.attr", "1 / 0", '1 + "a"']
+REF_DEFAULT = {"obj": "utterance", "member": "Finished", "bad": 0}
+REF_CHILD_EVENT = "Ev90"
 # comparison patterns: operator x reference number (int and float) x nesting of the pattern inside the parameter value
 CMP_OPS = {
     "less_than": lambda v, r: v < r,
@@ -141,6 +181,53 @@ def _cmp_of(case):
 def _cmp_text(cmp):
     t = "%s(%r)" % (cmp["op"], cmp["ref"])
     return {"plain": t, "list": "[%s]" % t, "dict": '{"a": %s}' % t}[cmp["nest"]]
+
+
+def _flows():
+    from nemoguardrails.colang.v2_x.runtime import flows
+
+    return flows
+
+
+def _ref_of(case):
+    r = dict(REF_DEFAULT)
+    r.update(case["fault"].get("ref") or {})
+    if r["obj"] == "flow":
+        r["member"] = "Finished"  # `start f as $r` only goes on once the flow has started: its Started event never comes again
+    return r
+
+
+def _ref_parked(state, case):
+    """[(flow state, referenced object)] of instances of the faulty helper with a head parked on the injected
+    `match $argref.<member>(<param>=<erroneous expression>)`."""
+    s = smh.sm()
+    target = "h%d" % (case["fault"]["helper"] % len(case["helpers"]))
+    out = []
+    for fs in state.flow_states.values():
+        if fs.flow_id != target or not s.is_listening_flow(fs):
+            continue
+        cfg = state.flow_configs[fs.flow_id]
+        for head in fs.heads.values():
+            if head.status == s.FlowHeadStatus.INACTIVE or not 0 <= head.position < len(cfg.elements):
+                continue
+            el = cfg.elements[head.position]
+            if s.is_match_op_element(el) and getattr(el, "spec", None) is not None and el.spec["var_name"] == "argref" and "argref" in fs.context:
+                out.append((fs, fs.context["argref"]))
+                break
+    return out
+
+
+def _ref_event(obj, ref):
+    """The event of the referenced action the parked statement is waiting for."""
+    d = {"type": obj.name + ref["member"], "action_uid": obj.uid}
+    if ref["member"] == "Finished":
+        d["is_success"] = True
+    return d
+
+
+def _canary3_event(case):
+    ref = _ref_of(case)
+    return REF_CHILD_EVENT if ref["obj"] == "flow" else REF_OBJS[ref["obj"]][1] + ref["member"]
 
 
 def _unsatisfying(cmp, k):
@@ -212,6 +299,12 @@ def _toward(state, case, item, sess):
             try:
                 ref = s.get_event_from_element(state, fs, el)
             except Exception:
+                # the injected reference-member match with an erroneous argument: its event cannot be built, feed the referenced action's event
+                if case["fault"]["kind"] in REFARG_FAULTS and fs.flow_id == target:
+                    for _fs, obj in _ref_parked(state, case):
+                        if _fs is fs and isinstance(obj, _flows().Action) and obj.uid in sess["running"]:
+                            d = _ref_event(obj, _ref_of(case))
+                            cands.append((fs.flow_id, head.position, d["type"], d))
                 continue
             name = ref.name
             if name.startswith("Ev") and name[2:].isdigit():
@@ -228,7 +321,7 @@ def _toward(state, case, item, sess):
         return None
     cands.sort(key=lambda c: c[:3])
     d = cands[item[1] % len(cands)][3]
-    if "action_uid" in d:
+    if "action_uid" in d and d["type"].endswith("Finished"):
         sess["running"].remove(d["action_uid"])
     return d
 
@@ -281,7 +374,9 @@ def _case(draw):
     imm = draw(st.lists(st.sampled_from(list(IMMEDIATE)), max_size=2, unique=True))
     toward = st.tuples(st.just("toward"), st.integers(0, 5), st.sampled_from([None, 0, 1])).map(list)
     hist_item = st.one_of(st.just(["evc"]), _evc_item(), st.just(["evz"]), co2.history_item())
-    if draw(st.booleans()):
+    # the error of a reference-member match with an erroneous argument is only due when the referenced object's own event comes in
+    # while the head is parked there: three of four such cases get a steered history
+    if draw(st.booleans()) and not (kind in REFARG_FAULTS and draw(st.booleans())):
         hist = draw(st.lists(hist_item, min_size=2, max_size=16))
     else:
         # steered: free prefix, a run of events the faulty helper is waiting for, then canary events with payloads mixed with further steering
@@ -291,6 +386,9 @@ def _case(draw):
     cmp = draw(st.fixed_dictionaries({"op": st.sampled_from(sorted(CMP_OPS)), "ref": st.sampled_from(CMP_REFS), "nest": st.sampled_from(("plain",) + CMP_NESTS)}))
     if kind in CMP_FAULTS:
         fault["cmp"] = cmp
+    ref = draw(st.fixed_dictionaries({"obj": st.sampled_from(sorted(REF_OBJS)), "member": st.sampled_from(REF_MEMBERS + ("Finished",)), "bad": st.integers(0, len(BAD_ARGS) - 1)}))
+    if kind in REFARG_FAULTS:
+        fault["ref"] = ref
     return {"helpers": helpers, "fault": fault, "imm": imm, "hist": hist, "choices": draw(st.lists(st.integers(0, 3), max_size=2)), "activate_helpers": draw(st.booleans())}
 
 
@@ -326,6 +424,8 @@ def enumerate_cases(tier):
         for h, fl in enumerate(helpers):
             for pos in range(1, len(fl["body"]) + 1):
                 for kind in FAULTS:
+                    if kind in REFARG_FAULTS:
+                        continue  # need a history that feeds the referenced object's event: own family below
                     yield {"helpers": helpers, "fault": {"kind": kind, "helper": h, "pos": pos}, "imm": [], "hist": hist, "choices": [], "activate_helpers": False}
     # comparison patterns: (a) every position x statement shape with a history that parks the head, delivers well-typed values that
     # do not satisfy the comparison and only then a value of a wrong type; (b) operator x reference x nesting x payload class at one position
@@ -344,6 +444,24 @@ def enumerate_cases(tier):
                     for wrap in (True, False) if nest != "plain" and cls in ("str", "list", "dict") else (True,):
                         hist_p = [["ev", 0, None], ["evc", ["ok", 2], True], ["evc", [cls, 1], wrap], ["evc", ["str", 3], True], ["evc"]]
                         yield {"helpers": fam[0], "fault": {"kind": "compare-type-match", "helper": 0, "pos": 1, "cmp": {"op": op, "ref": ref, "nest": nest}}, "imm": [], "hist": hist_p, "choices": [], "activate_helpers": cls in ("ok", "cross")}
+    # reference-member matches with an erroneous argument: (a) every position x statement shape, the referenced object / member /
+    # expression rotating, with a history that first walks the helper to the position and then feeds what it is waiting for (the
+    # event of the referenced action / of the child flow); (b) object x member x expression at one position
+    hist_r = hist[:7] + [["toward", 0, None], ["evc"], ["toward", 1, None], ["evc"], ["toward", 0, None], ["evc"], ["finished", 0], ["evc"], ["toward", 0, None], ["evc"]]
+    # a flow reference: ANY finishing flow (the canaries on EvC) makes the statement evaluate its arguments - no EvC before the child's own event
+    hist_f = [x for x in hist[:7] if x[0] != "evc"] + [["toward", 0, None], ["toward", 0, None], ["toward", 1, None], ["evc"], ["toward", 0, None], ["evc"], ["finished", 0], ["evc"]]
+    combos = [(o, m, b) for o in sorted(REF_OBJS) for m in REF_MEMBERS for b in range(len(BAD_ARGS)) if not (o == "flow" and m == "Started")]
+    n = 0
+    for helpers in fam:
+        for h, fl in enumerate(helpers):
+            for pos in range(1, len(fl["body"]) + 1):
+                for kind in REFARG_FAULTS:
+                    o, m, b = combos[(n * 11) % len(combos)]
+                    n += 1
+                    yield {"helpers": helpers, "fault": {"kind": kind, "helper": h, "pos": pos, "ref": {"obj": o, "member": m, "bad": b}}, "imm": [], "hist": hist_f if o == "flow" else hist_r, "choices": [], "activate_helpers": n % 2 == 0}
+    for o, m, b in combos:
+        for act in (False, True):
+            yield {"helpers": fam[0], "fault": {"kind": "ref-arg-match", "helper": 0, "pos": 1, "ref": {"obj": o, "member": m, "bad": b}}, "imm": [], "hist": hist_f if o == "flow" else hist_r, "choices": [], "activate_helpers": act}
     hist_z = [["evc"], ["evz"], ["evc"], ["evc"], ["ev", 0, None], ["evc"]]
     for imm in IMMEDIATE:
         for act in (False, True):
@@ -360,6 +478,10 @@ def build(case):
         pos = min(f["pos"], len(body))
         text = FAULTS[f["kind"]].replace("hlast", f"h{len(helpers) - 1}" if (f["helper"] % len(helpers)) != len(helpers) - 1 else "canaryhelper")
         text = text.replace("CMP", _cmp_text(_cmp_of(case)))
+        if f["kind"] in REFARG_FAULTS:
+            ref = _ref_of(case)
+            text = text.replace("REFSTART", REF_OBJS[ref["obj"]][0]).replace("MEMBER", ref["member"]).replace("PARAM", REF_OBJS[ref["obj"]][2])
+            text = text.replace("BADARG", BAD_ARGS[ref["bad"] % len(BAD_ARGS)])
         lines = [{"k": "raw", "text": t} for t in text.split("\n")]
         inj = lines if f["kind"] in MATCH_FAULTS else [{"k": "raw", "text": "send Reached()"}] + lines
         h["body"] = body[:pos] + inj + body[pos:]
@@ -373,6 +495,12 @@ def build(case):
     flows.append({"name": "canary2", "params": [], "loop": "canaryloop", "body": [{"k": "raw", "text": "match EvC()"}, {"k": "raw", "text": "send Canary2Out()"}]})
     flows.append({"name": "watcher", "params": [], "loop": "watchloop", "body": [{"k": "raw", "text": "match ColangError() as $e"}, {"k": "raw", "text": "send SawError(t=$e.type)"}]})
     main = [{"k": "raw", "text": "global $gd"}, {"k": "raw", "text": "$gd = 1"}, {"k": "raw", "text": "activate canary"}, {"k": "raw", "text": "activate canary2"}, {"k": "raw", "text": "activate watcher"}, {"k": "raw", "text": "activate gdsetter"}]
+    if f["kind"] in REFARG_FAULTS:
+        # the referenced child flow, and a third canary (loop of its own) that reacts to EVERY event of the name the erroneous
+        # statement waits for (the action event / the event that lets the child flow finish)
+        flows.append({"name": "argchild", "params": [], "loop": None, "body": [{"k": "raw", "text": f"match {REF_CHILD_EVENT}()"}]})
+        flows.append({"name": "canary3", "params": [], "loop": "canary3loop", "body": [{"k": "raw", "text": f"match {_canary3_event(case)}()"}, {"k": "raw", "text": "send Canary3Out()"}]})
+        main.append({"k": "raw", "text": "activate canary3"})
     for i, kind in enumerate(case["imm"]):
         body = IMMEDIATE.get(kind) or KNOWN_IMMEDIATE[kind]
         # a loop of its own: a flow that reacts to the canary event must not compete with the canaries for an action
@@ -428,6 +556,9 @@ def prop(case):
     counter = _rt["counter"]
     kind = case["fault"]["kind"]
     cmp = _cmp_of(case)
+    ref = _ref_of(case)
+    ref_parked_seen = False
+    ref_delivered = 0
     delivered = set()
     benign_parked = False
     toward_used = 0
@@ -511,9 +642,38 @@ def prop(case):
                 ev = smh.Session.concrete(fake, item)
                 if ev is None:
                     continue
+            ref_due = []
+            if kind in REFARG_FAULTS:
+                # instances of the faulty helper parked on the erroneous reference-member match for which THIS event is the referenced
+                # object's own event (the action's event with its uid / the event that lets the referenced child flow finish)
+                parked = _ref_parked(state, case)
+                ref_parked_seen |= bool(parked)
+                for fs_, obj in parked:
+                    if isinstance(obj, _flows().Action):
+                        if ev["type"] == obj.name + ref["member"] and ev.get("action_uid") == obj.uid:
+                            ref_due.append(fs_.uid)
+                    elif isinstance(obj, _flows().FlowState):
+                        if ev["type"] == REF_CHILD_EVENT and obj.uid in [f for f, _ in smh.scan_matchers(state).get(REF_CHILD_EVENT, [])]:
+                            ref_due.append(fs_.uid)
             out, state = run([ev], state)
             ledger(out)
             types = smh.types(out)
+            if kind in REFARG_FAULTS and ev["type"] == _canary3_event(case):
+                canary_checks += 1
+                c3 = types.count("Canary3Out")
+                if c3 != 1:
+                    raise Violation(
+                        "canary-starved" if ref_due else "canary-miscount",
+                        f"after {ev} (#{i}) the canary waiting for every {ev['type']} emitted Canary3Out x{c3} (expected 1); faulty head parked on the referenced object's event: {bool(ref_due)}; events {types}\n{text}",
+                    )
+            if ref_due:
+                reached = True
+                ref_delivered += 1
+                if "SawError" not in types:
+                    raise Violation("error-not-reported", f"erroneous match {kind} was parked when the referenced object's event {ev} (#{i}) came in but no ColangError observed; events {types}\n{text}")
+                alive = [u for u in ref_due if u in state.flow_states and smh.sm().is_listening_flow(state.flow_states[u])]
+                if alive:
+                    raise Violation("faulty-flow-not-failed", f"erroneous match {kind}: the flow instance is still running after the referenced object's event {ev} (#{i}) was matched against it; events {types}\n{text}")
             if "Reached" in types:
                 reached = True
                 if "SawError" not in types:
@@ -545,6 +705,9 @@ def prop(case):
     if kind in CMP_FAULTS:
         labels += ["cmp-op-" + cmp["op"], "cmp-ref-" + type(cmp["ref"]).__name__, "cmp-nest-" + cmp["nest"]]
         labels += ["cmp-parked-got-" + d for d in sorted(delivered)]
+    if kind in REFARG_FAULTS:
+        labels += ["refarg-obj-" + ref["obj"], "refarg-member-" + ref["member"], "refarg-bad-%d" % (ref["bad"] % len(BAD_ARGS))]
+        labels.append("refarg-own-event-delivered-while-parked" if ref_delivered else "refarg-parked-only" if ref_parked_seen else "refarg-never-parked")
     if saw_error:
         labels.append("colang-error-seen")
     if case["activate_helpers"]:
